@@ -145,3 +145,13 @@ claim("C16",
       "json model (length symbolic; ensure_ascii=False texts may take up to 4 bytes/char); backend model; bounds: 3 branches, one oversized context per run",
       "CrossHair symbolic execution (z3) of the real child/executor/wrapper code with solver-chosen serialized sizes",
       "DESIGN.md §3 C16")
+claim("C10",
+      "Symbolic execution of the real orphan gate in create_checkpoint/_mark_orphans: (i) 4 forest shapes x every reachable sequence of 3 updates (4 thorough) over "
+      "START/SUCCEED/FAIL/RETRY; (ii) a fully known forest (every first-seen order, 2-3 id namings) in which one or two contexts complete and any operation then "
+      "sends any update: an update is rejected with OrphanedChildException and not enqueued iff an ancestor context's completion was handed over - for existing "
+      "and for first-time operations; (iii) replay() runs no branch that was unfinished at completion. Executor-level stopping of a live orphan branch is in the "
+      "executor world lemmas.",
+      "abstract updates (id/parent/type/action); histories restricted to reachable ones (an operation is created after its context's START); sets iterate in "
+      "insertion order under CrossHair and hash order in CPython - both covered by varying namings/orders, replays try all",
+      "CrossHair symbolic execution (z3) of the real create_checkpoint orphan gate over solver-chosen forests and update sequences",
+      "DESIGN.md §3 C10")
